@@ -57,6 +57,8 @@ type Query {
   one(in: OneOfInput!): String
   time(t: Time, blobs: [Blob]): Time
   calc: Calc
+  mapObj(in: MapIn, ins: [MapIn!]): MapObj
+  mapObjs: [MapObj!]
   guarded(x: Int @onArgDef(min: 1, max: 3) @multi): String @onFieldDef @multi(a: [3])
   "field with every kind of default value"
   defaults(
@@ -188,6 +190,20 @@ type Calc {
   label(prefix: String!, width: Int!, suffix: String!): String!
   scale(factor: Float!, round: Boolean!): String!
   window(lo: Int, hi: Int = 9): String!
+  "bound to a (value, ok) method in the autobind layouts"
+  maybe(n: Int!): String
+}
+
+"""
+Map-backed object, as in gqlgen's own test servers (maps.graphql): nullable scalar, custom scalar
+and nested object fields only. Non-null fields of a map-backed OBJECT are outside the documented
+feature set (docs/content/reference/changesets.md documents maps for inputs).
+"""
+type MapObj @goModel(model: "map[string]interface{}") {
+  a: String
+  b: Int
+  c: Time
+  nested: Tag
 }
 
 union Thing @onUnion = User | Post | Comment
@@ -213,6 +229,15 @@ input UserFilter @onInputObject {
   ids: [[ID!]]
   old: String @deprecated(reason: "x")
   checked: String @multi(c: true)
+}
+
+"map-backed input (documented: changesets)"
+input MapIn @goModel(model: "map[string]interface{}") {
+  a: String!
+  b: Int
+  c: Time
+  limits: Limits
+  tags: [String!]
 }
 
 input Order {
